@@ -13,13 +13,17 @@ using namespace ref;
 namespace eng {
 namespace {
 
-enum SigKind { S_NOCAL, S_AUTH_VALID, S_AUTH_EXPIRED, S_AUTH_FUTURE, S_AUTH_BADSIG, S_AUTH_UNKNOWN_CERT, S_PUB_IN_FILE, S_PUB_NOT_IN_FILE, S_INCONSISTENT, S_CAL_ONLY, S_AUTH_EDGE_EXPIRING, S_AUTH_EDGE_STARTING, S_AUTH_EC_GARBAGE, S_AUTH_LEAP_EXPIRED, S_AUTH_LEAP_VALID, S_AUTH_SAME_SECOND, S__COUNT };
+enum SigKind { S_NOCAL, S_AUTH_VALID, S_AUTH_EXPIRED, S_AUTH_FUTURE, S_AUTH_BADSIG, S_AUTH_UNKNOWN_CERT, S_PUB_IN_FILE, S_PUB_NOT_IN_FILE, S_INCONSISTENT, S_CAL_ONLY, S_AUTH_EDGE_EXPIRING, S_AUTH_EDGE_STARTING, S_AUTH_EC_GARBAGE, S_AUTH_LEAP_EXPIRED, S_AUTH_LEAP_VALID, S_AUTH_SAME_SECOND, S_REDATED, S__COUNT };
 // S_AUTH_EC_GARBAGE: the authentication record names a listed, valid certificate with an EC key and carries a signature value that is
 // not even an encoded ECDSA signature (the verification primitive reports an error, not a mismatch): never acceptable
 // the fixture certificate auth_edge is valid from EDGE_T0 to EDGE_T1: one signature is aggregated just before it expires and published just
 // after (valid at the aggregation time: acceptable), one is aggregated just before it becomes valid and published just after (KEY-03)
 // the fixture certificates auth_leap_a / auth_leap_b have validity edges on 29 February (a: 2016-02-29 .. 2020-02-29, expired at the
 // aggregation times of this world: KEY-03; b: 2020-02-29 .. 2024-02-29, valid: acceptable)
+// S_REDATED: a genuine signature re-dated to its publication second - the aggregation chains are stamped with the publication time
+// and the calendar chain omits its aggregation-time element (so that it defaults to the publication time), while the shape of the
+// calendar chain still encodes the real, earlier second; hashes, calendar root and authentication record stay genuine. Internally
+// inconsistent (INT-05): never OK under any policy.
 static const uint64_t EDGE_T0 = 1599600000, EDGE_T1 = 1599650000;
 enum FileKind { F_HONEST, F_ROGUE_SIGNER, F_OTHER_EMAIL, F_BAD_SIGNATURE, F_HTTP_404, F_OTHER_HASHES, F_ONLY_OLD, F__COUNT };
 
@@ -126,14 +130,19 @@ struct TrustSim {
 			if (k == S_PUB_NOT_IN_FILE) p = Px;
 			if (k == S_AUTH_EDGE_EXPIRING || k == S_AUTH_EDGE_STARTING) p = s.agg + 6;
 			if (k == S_AUTH_SAME_SECOND) p = s.agg;   // the calendar chain ends at the signature's own second
+			if (k == S_REDATED) p = s.agg + 2;
 			if (k != S_NOCAL) {
 				CalChain cc = w.cal.chain(s.agg, p);
+				if (k == S_REDATED) {
+					cc.has_agg = false;
+					for (auto &kid : top.kids) if (kid.tag == 0x0801 && kid.expand()) for (auto &f : kid.kids) if (f.tag == 0x02 && !f.nested) f = Tlv::u64(0x02, p);
+				}
 				s.pub = p; s.cal_root = cc.fold();
 				top.add(cc.enc());
 				std::string root = s.cal_root;
 				if (k == S_INCONSISTENT) root = imprint(1, "not the root");
 				if (k == S_PUB_IN_FILE || k == S_PUB_NOT_IN_FILE || k == S_INCONSISTENT) top.add(Tlv::nest(0x0803, {Tlv::nest(0x10, {Tlv::u64(0x02, p), Tlv::raw(0x04, root)})}));
-				if (k == S_AUTH_VALID || k == S_AUTH_SAME_SECOND) top.add(auth_rec(p, root, pki("auth_valid"), false, false));
+				if (k == S_AUTH_VALID || k == S_AUTH_SAME_SECOND || k == S_REDATED) top.add(auth_rec(p, root, pki("auth_valid"), false, false));
 				if (k == S_AUTH_EXPIRED) top.add(auth_rec(p, root, pki("auth_expired"), false, false));
 				if (k == S_AUTH_FUTURE) top.add(auth_rec(p, root, pki("auth_future"), false, false));
 				if (k == S_AUTH_BADSIG) top.add(auth_rec(p, root, pki("auth_valid"), true, false));
@@ -234,7 +243,7 @@ struct TrustSim {
 			ext_any = true;
 			if (bw.served[i].reply_eligible && (bw.served[i].meta.behav == B_HONEST || bw.served[i].meta.behav == B_WITH_CONF) && !bw.fault_fired) ext_honest = true;
 		}
-		bool genuine = s.kind != S_INCONSISTENT;
+		bool genuine = s.kind != S_INCONSISTENT && s.kind != S_REDATED;
 		bool has_pubrec = s.kind == S_PUB_IN_FILE || s.kind == S_PUB_NOT_IN_FILE;
 		// derivations of "the calendar root is bound to the anchor"
 		bool d_key = (s.kind == S_AUTH_VALID || s.kind == S_AUTH_SAME_SECOND || s.kind == S_AUTH_EDGE_EXPIRING || s.kind == S_AUTH_LEAP_VALID) && file_trusted; // listed certificate valid at the aggregation time
